@@ -1020,12 +1020,125 @@ pub fn destroy_race_scenario(g: &GenCfg) -> BoxedStrategy<Scenario> {
                     // the setter waits until the conditional action ran once on the pre-state guard
                     s.holds.push(Hold { role: role::WORKER, nth_thread: 255, at: pt::EXEC_START, arg: Some(role_pos[0] as u16), nth: 0, until: Until::EventOrSteps(2, gaps[5] % 2, 1200) });
                     if role_pos[2] != usize::MAX && gaps[3] != 0 {
-                        s.holds.push(Hold { role: role::WORKER, nth_thread: 255, at: pt::EXEC_START, arg: Some(role_pos[2] as u16), nth: 0, until: Until::EventOrSteps(2, 1 + gaps[3], 2000) });
+                        // the probe either starts late, or straddles the publication of the
+                        // conditional action: it has read the account, pauses before its first
+                        // storage read and resumes after the action's attempt has been published
+                        let at = if gaps[3] == 2 && gaps[2] != 0 { pt::DB_STORAGE } else { pt::EXEC_START };
+                        s.holds.push(Hold { role: role::WORKER, nth_thread: 255, at, arg: Some(role_pos[2] as u16), nth: 0, until: Until::EventOrSteps(2, 1 + gaps[3] % 2, 2000) });
                     }
                     sc.grevm.concurrency = sc.grevm.concurrency.max(3);
                 }
             }
             sc.grevm.force_sequential = false;
+            sc
+        })
+        .boxed()
+}
+
+// ---------------------------------------------------------------------------------------------
+// Fee-fold template (C07): several transactions only pay the fee recipient, one of the OLDER payers
+// uses a data-dependent amount of gas (its path depends on a guard slot an earlier transaction
+// flips), a NEWER payer is independent of everything, and later transactions read the recipient's
+// balance. A reader that folded the first incarnation's credit must be re-executed when only an
+// older link of the credit chain changes.
+// ---------------------------------------------------------------------------------------------
+
+pub fn fee_fold_scenario(g: &GenCfg) -> BoxedStrategy<Scenario> {
+    let mut g2 = g.clone();
+    g2.chain_pm = 0;
+    g2.fund_pm = 0;
+    g2.min_txs = 5;
+    g2.max_txs = g.max_txs.max(7);
+    (scenario(&g2), 0u8..4, any::<bool>(), proptest::collection::vec(0u8..3, 8), 0u8..4)
+        .prop_map(|(mut sc, guard, polarity, gaps, reader_kind)| {
+            if sc.txs.len() < 5 || sc.world.eoas.len() < 4 || sc.world.contracts.len() < 2 {
+                return sc;
+            }
+            let (g0, g1) = if polarity { (0u64, 1u64) } else { (1u64, 0u64) };
+            let a = (guard + 1) % 5;
+            let b = (guard + 2) % 5;
+            sc.world.contracts[0] = ContractDef {
+                balance: Bal::Zero,
+                storage: vec![(guard, g0)],
+                code: Code::Routines(vec![
+                    // 0: flip the guard
+                    vec![Stmt::SStore(guard, Expr::Const(g1))],
+                    // 1: gas depends on the guard (two fresh SSTOREs or none)
+                    vec![Stmt::If(Expr::SLoad(guard), vec![Stmt::SStore(a, Expr::Const(5)), Stmt::SStore(b, Expr::Const(6))], vec![])],
+                    // 2: flip it back
+                    vec![Stmt::SStore(guard, Expr::Const(g0))],
+                ]),
+            };
+            let read = match reader_kind {
+                0 => Expr::Balance(AddrRef::Benef),
+                1 => Expr::Add(Box::new(Expr::Balance(AddrRef::Benef)), Box::new(Expr::ExtCodeSize(AddrRef::Benef))),
+                2 => Expr::Balance(AddrRef::Benef),
+                _ => Expr::ExtCodeHash(AddrRef::Benef),
+            };
+            sc.world.contracts[1] = ContractDef {
+                balance: Bal::Wei(9),
+                storage: vec![],
+                code: Code::Routines(vec![
+                    vec![Stmt::SStore(0, read.clone())],
+                    vec![Stmt::SStore(1, read), Stmt::Call { kind: CallKind::Call, target: AddrRef::Benef, value: 1, sel: 0, arg: None, small_gas: false, store: Some(2) }],
+                ]),
+            };
+            for e in sc.world.eoas.iter_mut() {
+                e.balance = Bal::Ether(10);
+                e.nonce = e.nonce.min(100);
+                e.delegate = None;
+            }
+            // the fee recipient only receives fees (an absent or passive account)
+            if !matches!(sc.world.beneficiary, AddrRef::Absent(_)) {
+                sc.world.beneficiary = AddrRef::Absent(0xBE);
+            }
+            let n = sc.txs.len();
+            let ne = sc.world.eoas.len() as u8;
+            // roles: 0 flip guard, 1 guard-dependent payer, 2 independent payer, 3 reader, 4 reader again / flip back
+            let mut pos = 0usize;
+            let mut role_pos = [usize::MAX; 5];
+            for k in 0..5usize {
+                pos += (gaps[k] as usize) % 2;
+                if pos >= n {
+                    break;
+                }
+                let sender = (k as u8) % ne.min(4);
+                sc.txs[pos] = match k {
+                    0 => TxDef { sender, sel: 0, to: TxTo::Call(AddrRef::Con(0)), gas: GasDef::Limit(120_000), price_delta: 1 + gaps[5] as i32, ..TxDef::default() },
+                    1 => TxDef { sender, sel: 1, to: TxTo::Call(AddrRef::Con(0)), gas: GasDef::Limit(120_000), price_delta: 2, ..TxDef::default() },
+                    2 => TxDef { sender, to: TxTo::Call(AddrRef::Absent(1)), value: ValueDef::Wei(3), gas: GasDef::Limit(60_000), price_delta: 3, ..TxDef::default() },
+                    3 => TxDef { sender, sel: gaps[6] % 2, to: TxTo::Call(AddrRef::Con(1)), gas: GasDef::Limit(120_000), price_delta: 1, ..TxDef::default() },
+                    _ => {
+                        if gaps[7] == 0 {
+                            TxDef { sender: 0, sel: 2, to: TxTo::Call(AddrRef::Con(0)), gas: GasDef::Limit(120_000), price_delta: 1, ..TxDef::default() }
+                        } else {
+                            TxDef { sender: 3 % ne, sel: 0, to: TxTo::Call(AddrRef::Con(1)), gas: GasDef::Limit(120_000), price_delta: 1, ..TxDef::default() }
+                        }
+                    }
+                };
+                role_pos[k] = pos;
+                pos += 1;
+            }
+            for t in sc.txs.iter_mut() {
+                if t.tx_type == 4 {
+                    t.tx_type = 0;
+                    t.auths.clear();
+                }
+            }
+            if sc.basefee == 0 && gaps[5] == 0 {
+                sc.basefee = 0;
+            }
+            if gaps[4] != 0 && role_pos[3] != usize::MAX {
+                if let Some(s) = sc.schedule.as_mut() {
+                    s.holds.clear();
+                    // the guard flip waits until 2-4 attempts have finished on the pre-state guard, so the
+                    // payers and the reader run once before the dependent payer is invalidated
+                    s.holds.push(Hold { role: role::WORKER, nth_thread: 255, at: pt::EXEC_START, arg: Some(role_pos[0] as u16), nth: 0, until: Until::EventOrSteps(2, 2 + gaps[6], 2500) });
+                    sc.grevm.concurrency = sc.grevm.concurrency.max(3);
+                }
+            }
+            sc.grevm.force_sequential = false;
+            sc.grevm.min_parallel_txs = 0;
             sc
         })
         .boxed()
